@@ -36,6 +36,12 @@ FULL = [('connect', 'e0', '/'), ('connect', 'e0', '/b'), ('connect', 'e1', '/'),
         ('enter', 'S0', '/', 'r1'), ('ack', 'S0', '/')]
 CAUSE = {'api': ('api', 'S0', '/'), 'cli': ('client', 'e0', '/'), 'loss': ('loss', 'e0', 'transport close'),
          'ocli': ('client', 'e0', '/b'), 'oapi': ('api', 'S1', '/b')}
+# TWO: one transport, alone on the server, with a session in each of two namespaces (S0 in "/a", S1 in
+# "/b"): every terminating action on one session is "disconnect of another namespace of the same
+# transport" for the other one, and each namespace table disappears with its only session.
+TWO = [('connect', 'e0', '/a'), ('connect', 'e0', '/b')]
+CAUSE.update({'a.api': ('api', 'S0', '/a'), 'a.cli': ('client', 'e0', '/a'),
+              'b.api': ('api', 'S1', '/b'), 'b.cli': ('client', 'e0', '/b')})
 
 
 def scenario(setup, names, raising=()):
@@ -186,13 +192,16 @@ def signature(code, mode):
         else:
             return 'double-check-window-' + '+'.join(names)
         return base + ''.join('+' + x for x in extra)
-    return '+'.join(names) + '-without-double-check' + ('' if mode == 'threads' else '@asyncio')
+    return '+'.join(names) + '-without-double-check' + ('' if mode == 'threads' else '@asyncio') + \
+        ('+gave-up-on-busy-lock' if code & 1024 else '')
 
 
 def what_of(code):
     return '; '.join(text for bit, _, text in CLAUSES if code & bit) + \
         ('; two tasks saw is_connected = True for the same client before either called pre_disconnect'
-         if code & 256 else '')
+         if code & 256 else '') + \
+        ('; a thread asked for server._disconnect_lock without blocking while another thread held it and went on '
+         'without the lock' if code & 1024 else '')
 
 
 # ---------------------------------------------------------------------------------------
@@ -201,6 +210,20 @@ def what_of(code):
 WITNESSES = [
     ('handler_twice', scenario(LONE, ['api', 'cli']), [0, 1, 1, 0, 1, 0, 1, 0, 1, 0], 4 | 256),
     ('keyerror_leftover', scenario(LONE, ['api', 'cli']), [0, 1, 1, 1, 1, 1, 0], 16 | 32 | 256 | 512),
+]
+
+
+# directed schedules of the code WITH the lock (two sessions of one transport): thread 0 =
+# disconnect(S1, "/b") is pre-empted INSIDE the critical section (after its locked is_connected),
+# thread 1 (transport loss / DISCONNECT "/a") reaches its own acquire: it has to wait (choices of a
+# waiting thread are no-ops, in the model and under the scheduler) and then still terminates "/a".
+LOCKED_WITNESSES = [
+    ('lock_held_for_other_namespace loss', scenario(TWO, ['b.api', 'loss']),
+     [0, 0, 0, 1, 1, 1, 1, 0, 1, 1, 1, 0, 0, 0, 1, 1, 1, 1, 1, 1], 0),
+    ('lock_held_for_other_namespace packet', scenario(TWO, ['b.api', 'a.cli']),
+     [0, 0, 0, 1, 1, 1, 0, 1, 1, 1, 0, 0, 0, 1, 1], 0),
+    ('lock_held_by_packet_of_other_namespace', scenario(TWO, ['b.cli', 'a.api', 'loss']),
+     [0, 0, 0, 1, 1, 2, 2, 2, 1, 0, 2, 1, 2, 0, 0, 1, 1, 1, 1, 2, 2, 2, 2, 2, 2, 2, 2, 2, 1, 1], 0),
 ]
 
 
@@ -236,6 +259,19 @@ def plan(thorough):
         out.append(('full ' + '+'.join(names), scenario(FULL, names), 'all' if thorough else ('bounded', 2, 60)))
     out.append(('full api+loss raising', scenario(FULL, ('api', 'loss'), raising=['S0', 'S1']),
                 ('bounded', 3, 300) if thorough else ('bounded', 1, 30)))
+    # two sessions of ONE transport (namespaces "/a" and "/b"): a cause for one namespace together with a
+    # cause for the other one, with the loss of the transport, and three at a time; pre-emption at every
+    # access, in particular inside the critical sections of server._disconnect_lock
+    for names in (('a.api', 'b.api'), ('a.api', 'b.cli'), ('a.cli', 'b.api'), ('a.cli', 'b.cli')):
+        out.append(('two ' + '+'.join(names), scenario(TWO, names), 'all'))
+    for names in (('loss', 'a.api'), ('loss', 'b.api'), ('loss', 'b.cli')):
+        out.append(('two ' + '+'.join(names), scenario(TWO, names), 'all' if thorough else ('bounded', 2, 60)))
+    out.append(('two loss+b.api raising', scenario(TWO, ('loss', 'b.api'), raising=['S0', 'S1']),
+                ('bounded', 3, 300) if thorough else ('bounded', 1, 30)))
+    for names in (('a.cli', 'b.api', 'loss'), ('a.api', 'b.api', 'loss'), ('a.api', 'b.cli', 'loss'),
+                  ('a.cli', 'b.cli', 'loss'), ('a.api', 'a.cli', 'b.api'), ('a.api', 'b.api', 'b.cli')):
+        out.append(('two ' + '+'.join(names), scenario(TWO, names),
+                    ('bounded', 2, 800) if thorough else ('bounded', 1, 60)))
     if thorough:
         for names in itertools.combinations_with_replacement(['api', 'cli', 'loss'], 3):
             if names.count('loss') <= 1:
@@ -391,7 +427,8 @@ TRUSTED = [
     'engineio Socket / AsyncSocket objects built by hand (no HTTP); engineio generate_id replaced by a counter',
     'choice of atomic steps: one per call of manager.get_namespaces / sid_from_eio_sid / is_connected / pre_disconnect / '
     'disconnect, eio.send, the disconnect handler, `eio_sid in environ`, acquiring server._disconnect_lock (replaced by '
-    'drivers.sched_srv.ILock: mutual exclusion is enforced by the scheduler) (threads: each such call is atomic, i.e. the '
+    'drivers.sched_srv.ILock: mutual exclusion is enforced by the scheduler; a blocking acquire of a held lock is not '
+    'enabled, a non-blocking / timed one stays enabled and answers False) (threads: each such call is atomic, i.e. the '
     'scheduler does not pre-empt INSIDE is_connected or basic_disconnect; finer pre-emption can only add behaviours)',
     'engine.io reports the loss of one transport once; it contains exceptions of the message / disconnect handlers '
     '(they are observed where they leave python-socketio)']
@@ -412,7 +449,8 @@ def run(chk):
     chk.extra['variant'] = {'disconnect() takes _disconnect_lock': seen[0],
                             '_handle_disconnect() takes _disconnect_lock': seen[1], 'model granularity': gran}
     # the refutation witnesses are schedules of the code without the lock
-    defs, cases, meta = collect(chk, 'threads', gran, plan(chk.thorough), WITNESSES if gran == 'GThread' else [])
+    defs, cases, meta = collect(chk, 'threads', gran, plan(chk.thorough),
+                                WITNESSES if gran == 'GThread' else LOCKED_WITNESSES)
     judge(chk, 'c20', defs, cases, meta, 'c20-correspondence')
 
 
